@@ -213,7 +213,17 @@ func (w *World) Scan(faults []Fault) *Line {
 	if line.Ret == "notingroup" || line.Exit {
 		w.Alive = false
 	}
-	line.Gauges = w.readGauges()
+	if !w.NoGauges {
+		line.Gauges = w.readGauges()
+	} else {
+		line.Gauges = map[string]Gauges{}
+		for _, g := range w.Gorder {
+			line.Gauges[g] = Gauges{}
+		}
+	}
+	if RealTime && time.Now().After(w.T0.Add(time.Duration(w.Now)*Tick+Tick/4)) {
+		w.Late = true
+	}
 	line.Post = w.Project()
 	return line
 }
